@@ -287,6 +287,9 @@ fn placed(flushed: &[u8], unflushed: &[u8], pcf: u64, mps: u64, second_ingest: b
 fn stress(pcf: u64, ops: u16, workers: usize, evictor: bool, env: &mut CaseEnv) -> Result<(), Failure> {
     env.class("stress");
     env.class(if evictor { "stress:with_evictor" } else { "stress:no_evictor" });
+    // several client threads per shard and 16 shards compete for the cores: a call gets more time here than in the
+    // placed schedules before it is given up as inconclusive
+    db::set_call_deadline(Duration::from_secs(60));
     let opts = DbOpts { threads: workers, partition_combine_factor: pcf, ..DbOpts::default() };
     let dir = db::temp_dir("c10s");
     let dbh = Arc::new(Db::open(&opts, Some(dir.path())).map_err(|f| Failure::from_fault(&f, "open"))?);
@@ -419,7 +422,11 @@ fn stress(pcf: u64, ops: u16, workers: usize, evictor: bool, env: &mut CaseEnv) 
 pub fn check(case: &Case, env: &mut CaseEnv) -> Result<(), Failure> {
     let r = match case {
         Case::Placed { flushed, unflushed, pcf, mps, second_ingest, opt_mask } => placed(flushed, unflushed, *pcf, *mps, *second_ingest, *opt_mask, env),
-        Case::Stress { pcf, ops, workers, evictor } => stress(*pcf, *ops, *workers, *evictor, env),
+        Case::Stress { pcf, ops, workers, evictor } => {
+            let r = stress(*pcf, *ops, *workers, *evictor, env);
+            db::set_call_deadline(Duration::from_secs(20));
+            r
+        }
     };
     db::sync_release_all();
     r
